@@ -127,6 +127,26 @@ class Runner:
         env.audio = core_env.AudioEnv(env)
         env.mixer_volume = None
         env.mixer_mute = None
+        cfgv = self.case.get("via_setup")
+        env.cfg_volume = None
+        if cfgv is not None and all(cov) and not unlink_fails:
+            # the real start-up path: audio/mixer_volume is configured (the run command has set
+            # the mixer to it before the core starts) and Core._setup restores every section - the
+            # saved volume wins.  Used only when the state file holds a volume, so that the
+            # outcome is the model's (fresh device, then the saved volume).
+            try:
+                from mopidy.internal import storage
+
+                saved = storage.load(self.core._get_state_file())
+                has_volume = saved.state.mixer.volume is not None
+            except Exception:  # noqa: BLE001
+                has_volume = False
+            if has_volume:
+                env.cfg_volume = cfgv
+                env.mixer_volume = cfgv
+                self.core, self._restore = core_env.make_core(env)
+                self.core._setup()
+                return
         self.core, self._restore = core_env.make_core(env)
         if unlink_fails:
             # the state file can be read but not deleted (read-only directory): the restore has to
